@@ -528,9 +528,43 @@ impl Ctx {
                 format!("{}/{}", c, e)
             })
             .collect();
+        // every other read accessor must tell the same story as the ones printed above
+        let mut acc: Option<String> = None;
+        for &h in hs.iter() {
+            for t in 0..NTYPES {
+                if acc.is_none() {
+                    acc = accessor_disagreement(world, h, t);
+                }
+            }
+            if acc.is_none() {
+                if let Ok(er) = world.entity(h) {
+                    if er.len() as usize != er.component_types().count() || er.is_empty() != (er.len() == 0) {
+                        acc = Some(format!("EntityRef::len:{}", show_entity(h)));
+                    }
+                }
+            }
+        }
+        if acc.is_none() {
+            let it = world.iter();
+            let announced = it.len();
+            if announced != iter.len() || announced != len as usize || world.is_empty() != (len == 0) {
+                acc = Some(format!("World::iter().len():{}!={}", announced, iter.len()));
+            }
+        }
+        if acc.is_none() {
+            for (e, _) in iter.iter() {
+                // SAFETY: `e` was just yielded by iteration, so its id is live
+                let found = unsafe { world.find_entity_from_id(e.id()) };
+                if found != *e {
+                    acc = Some(format!("World::find_entity_from_id:{}!={}", show_entity(found), show_entity(*e)));
+                    break;
+                }
+            }
+        }
+        let acc = acc.map_or("ok".to_string(), |m| m.replace(' ', "_"));
         (
             format!("obs W{} hs={}", w, show_entities(&hs)),
-            format!("len={} iter=[{}] arch=[{}] ag={} hs=[{}]", len, iter_s.join(";"), arch_s.join(";"), ag, hs_s.join(",")),
+            format!("len={} iter=[{}] arch=[{}] ag={} hs=[{}] acc={}", len, iter_s.join(";"), arch_s.join(";"), ag, hs_s.join(","), acc),
         )
     }
 
